@@ -68,7 +68,13 @@ def run_k(cfg):
     framing = 'tcp' if cfg['transport'] == 'tcp' else 'rtu'
     head = cfg.get('head', 0)
 
+    off = 1 if cfg.get('raw_prior') else 0
+
     def plan(i, req, now):
+        if off and i == 0:
+            # the earlier raw request (same bytes, permissive validator) is answered by a conforming frame
+            return [(D0, ('data', wire.tcp_read_resp(req[:2], 0xF7, bytes(10)) if framing == 'tcp' else wire.rtu_read_resp(0xF7, bytes(10))))]
+        i -= off
         if i == k:
             if head:
                 full = wire.tcp_read_resp(req[:2], 0xF7, bytes(250)) if framing == 'tcp' else wire.rtu_read_resp(0xF7, bytes(250))
@@ -78,12 +84,20 @@ def run_k(cfg):
     peer = PlanPeer(plan)
     loop = KLoop(peer)
     p = make_protocol(cfg['transport'], T, R, cfg['ka'])
+    if off:
+        # Inverter.send_command() style: the caller supplies the request bytes - here the very bytes of the typed command
+        # that follows - and accepts whatever comes back
+        loop.run(_exec(world.gp.ProtocolCommand(command(p, kind).request, lambda x: True), p))
     st, res = loop.run(_exec(command(p, kind), p))
     t1 = loop.time()
     if st == 'hang':
         res = ('hang', res)
     loop.settle(3 * T)  # any further transmission / stale timer would show here
     vio = []
+    if off:
+        class _P:       # (the transmissions of the typed request only)
+            sent = peer.sent[off:]
+        peer = _P
     if k > R:
         return vio, res, peer.sent, t1
     want = wire.exception_reason(code)
@@ -116,6 +130,8 @@ def job(cfgs):
             cls = 'known-code' if cfg['code'] in wire.MODBUS_EXCEPTIONS else 'unknown-code'
             if cfg.get('head'):
                 cls = 'after-fragment'
+            if cfg.get('raw_prior'):
+                cls += '/after-raw-command-with-the-same-bytes'
             if not any(c == clause for c, _ in v2):
                 cls += '/order-dependent'
             out.append(dict(key=f"{clause}/{cfg['transport']}/ka={int(cfg['ka'])}/{cfg['kind']}/after-{min(cfg['k'], 1)}-timeouts/{cls}",
@@ -349,6 +365,13 @@ def run(tier, seed, rep):
                     for kind in KINDS:
                         for code in codes:
                             cfgs.append(dict(transport=tr, ka=ka, T=T, R=R, k=k, kind=kind, code=code))
+    # the typed request follows a caller-supplied raw request with the very same bytes (and a permissive validator)
+    for tr in ('udp', 'tcp'):
+        for ka in (False, True):
+            for kind in KINDS:
+                for code in (1, 2, 3, 6, 11, 0x55):
+                    for k in (0, 1):
+                        cfgs.append(dict(transport=tr, ka=ka, T=1, R=1, k=k, kind=kind, code=code, raw_prior=True))
     # a pending fragment of a read answer must not swallow the exception frame
     for tr in ('udp', 'tcp'):
         for ka in (False, True):
